@@ -502,7 +502,13 @@ func (w *WAL) DeleteRange(min uint64, max uint64) error {
 	case min <= first: // max >= first implied by the first case not matching
 		// Note we allow head truncations where max > last which effectively removes
 		// the entire log.
-		return w.truncateHeadLocked(max + 1)
+		newMin := max + 1
+		if newMin == 0 {
+			// max is the largest uint64 so max+1 wrapped around. The range covers
+			// every index, any new first index beyond last removes the entire log.
+			newMin = max
+		}
+		return w.truncateHeadLocked(newMin)
 
 	//    |min----max|
 	// |first====last|
